@@ -302,7 +302,16 @@ static void harness_scenario(int s0)
 
 	for (int n = 0; n < NOPS; n++) do_op(&ALPHA[ops[n]]);
 
-	/* wind-down: flow control off, then loop + client run until nothing is pending */
+	/* wind-down, phase A: with request flow control ON (rate limit OFF) the loop still serves POLLOUT and the client
+	 * reads: events and their notifications do not depend on request flow control */
+	do_op(&ALPHA[6]);
+	for (int k = 0; k < EV_CAP + 2; k++) { do_op(&ALPHA[5]); do_op(&ALPHA[2]); }
+	do_op(&ALPHA[5]);
+	if (!closed_calls) {
+		PROP(client_got_evs == accepted_evs && ev_len == 0 && the_c->outstanding_notifiers == 0,
+		     "every accepted event reaches a polling client while request flow control is on");
+	}
+	/* phase B: flow control off, then loop + client run until nothing is pending */
 	do_op(&ALPHA[7]);
 	for (int k = 0; k < RQ_CAP + EV_CAP + 2; k++) { do_op(&ALPHA[1]); do_op(&ALPHA[2]); do_op(&ALPHA[5]); }
 	if (!closed_calls) {
